@@ -74,6 +74,7 @@ pub fn blocks(thorough: bool) -> Vec<Block> {
         }
         b.push(Block::new(Universe::new("U_adv(A_gc)", A_GC, 3, 1, false), k1.clone(), "Lambda<=1 (no u,c)"));
         b.push(Block::new(Universe::new("U_adv(A_cons)", A_CONS, 1, 4, false), vec![Cfg::new(0), Cfg::new(I), Cfg::new(X), Cfg::new(G | I)], "{}, i, x, g+i"));
+        b.push(Block::new(Universe::new("U_pairs{a,b}^<=5", &["a", "b"], 5, 2, false), vec![Cfg::new(R), Cfg::with(R, 1, 2), Cfg::new(R | E), Cfg::new(R | X)], "r, r(1,2), r+e, r+x"));
         b.push(Block::new(Universe::new("U_adv(A_gcm)", A_GCM, 3, 1, false), k1.clone(), "Lambda<=1 (no u,c)"));
         b.push(Block::new(Universe::new("U_adv(A_gcm)", A_GCM, 2, 2, false), vec![Cfg::new(0), Cfg::new(R), Cfg::new(X)], "{}, r, x"));
     } else {
@@ -93,9 +94,19 @@ pub fn blocks(thorough: bool) -> Vec<Block> {
     b
 }
 
+/// Case partners in both list orders (see C04) and prefix pairs with a repeated tail: soundness-level twins of
+/// the C04 / C05 universes, membership only.
+fn extra(ctx: &Ctx) {
+    let pairs = crate::props::c04::case_partner_lists();
+    let ci = Cfg::new(I);
+    crate::ev::par_for(pairs.len(), |i| check_case(ctx, &pairs[i], &ci));
+    ctx.run.space(json!({"universe": "case-partner lists (every scalar with a single-scalar std lower/upper-case partner, both list orders, inside one string, with suffixes)", "sets": pairs.len(), "settings": "i", "cases": pairs.len()}));
+}
+
 pub fn run(ctx: &Ctx) {
     *ctx.run.rule.lock().unwrap() = "every non-empty subset (size bound m) of Sigma^<=k for the listed alphabets x every settings value with at most the stated number of flags differing from default (u and c excluded); non-trivial = >=2 members sharing a first or last scalar, or epsilon next to another string, or a repeated substring, or any non-alphanumeric scalar; distinct by hash of (set, settings)".into();
     sweep(ctx, &blocks(ctx.run.is_thorough()), check_case);
+    extra(ctx);
     scalars(ctx);
 }
 
